@@ -35,6 +35,8 @@ func runC15(c *core.Ctx) {
 	h.queueDiscipline("C15.4e client-queue")
 	h.oneSnapshotAtATime("C15.4f one-snapshot-at-a-time")
 	h.transferTimeoutAnswers("C15.4g transfer-timeout-answers")
+	// a task answered at the end of a leadership is not kept: the long-lived leader object would answer it again
+	h.releaseEmptiesHolders("C15.4h release-empties-holders")
 	c.Clause("C15.5 shutdown can make progress: ordering of Serve's epilogue, single closer of Raft.close")
 	h.shutdownOrder("C15.5 shutdown")
 	h.stateDriver("C15.5b state-driver")
@@ -46,6 +48,8 @@ func runC15(c *core.Ctx) {
 	h.blockingOps("C15.7 blocking-ops")
 	c.Clause("C15.8 values of two-result type assertions are dereferenced only where the assertion succeeded")
 	h.commaOkDiscipline("C15.8 comma-ok")
+	c.Clause("C15.9 assertions that guard persisted state cannot be reached with their condition false: every storage.setTerm(t) lies behind t > term")
+	h.setTermPrecondition("C15.9 setTerm-precondition")
 }
 
 type guardSpec struct{ field, mu, reason string }
